@@ -38,7 +38,7 @@ Script(i) == Trace[cl].xs[i].script
 \* the abstract exchange of a concrete one
 Abstract(e, cfg) ==
     [headEnd |-> RHeadLen(e.script), end |-> RWireLen(e.script),
-     closeAfter |-> (RClosesAfter(e.script) \/ EffClose(e.prog)), reqClose |-> EffClose(e.prog),
+     closeAfter |-> (RClosesAfter(e.script) \/ EffClose(e.prog) \/ e.early), reqClose |-> EffClose(e.prog), early |-> e.early,
      untilClose |-> (RHasBody(e.script) /\ e.script.framing = "close"),
      big |-> Big(e.script, cfg)]
 
@@ -92,6 +92,12 @@ TracePeerReply == /\ active /\ HasLine /\ Line.ev = "PeerReply"
                   /\ Line.x = xn /\ Line.conn = cur /\ Line.n = xs[xn].end /\ Line.close = xs[xn].closeAfter
                   /\ Consume /\ UNCHANGED <<cl, seen>>
 
+\* the peer answered early and closed: the client's write on Line.conn failed (no decoder sees a complete request)
+TraceEarly == /\ active /\ HasLine /\ Line.ev = "EarlyReply"
+              /\ EarlyReply(Line.conn)
+              /\ Line.x = xn /\ Line.n = xs[xn].end
+              /\ Consume /\ UNCHANGED <<cl, seen>>
+
 TraceDeliver == /\ active /\ HasLine /\ Line.ev = "Deliver" /\ Deliver(Line.conn, Line.n) /\ Consume /\ UNCHANGED <<cl, seen>>
 TraceEof     == /\ active /\ HasLine /\ Line.ev = "Eof" /\ PeerEof(Line.conn) /\ Consume /\ UNCHANGED <<cl, seen>>
 TraceClosed  == /\ active /\ HasLine /\ Line.ev = "ConnClosed" /\ Close(Line.conn) /\ Consume /\ UNCHANGED <<cl, seen>>
@@ -100,8 +106,8 @@ TraceClosed  == /\ active /\ HasLine /\ Line.ev = "ConnClosed" /\ Close(Line.con
 TraceReturned ==
     /\ active /\ HasLine /\ Line.ev = "Returned"
     /\ phase = "replied" /\ Line.x = xn
-    /\ ReturnedOK(Line, Script(xn), Cfg)
-    /\ Return(IF Line.err = "tooLarge" THEN "tooLarge" ELSE "ok")
+    /\ ReturnedOK(Line, Script(xn), Cfg, xs[xn].early)
+    /\ Return(IF Line.err = "tooLarge" THEN "tooLarge" ELSE IF Line.err # "" THEN "closed" ELSE "ok")
     \* a connection that stays usable holds no unread bytes (buffered = bytes read from the socket but not consumed)
     /\ (conns'[cur].open /\ ~conns'[cur].mustClose) => Line.buffered = 0
     /\ Consume /\ UNCHANGED <<cl, seen>>
@@ -110,7 +116,7 @@ TraceEnd == /\ active /\ HasLine /\ Line.ev = "End"
             /\ phase = "idle" /\ xn = N + 1
             /\ Blank /\ Consume
 
-Normal == TraceCase \/ TraceDial \/ TraceSent \/ TraceOnWire \/ TracePeerReply \/ TraceDeliver \/ TraceEof \/ TraceClosed
+Normal == TraceCase \/ TraceDial \/ TraceEarly \/ TraceSent \/ TraceOnWire \/ TracePeerReply \/ TraceDeliver \/ TraceEof \/ TraceClosed
           \/ TraceReturned \/ TraceEnd
 
 NextCase(j) == IF \E i \in j + 1 .. Len(Trace) : Trace[i].ev = "Case"
